@@ -34,6 +34,33 @@ pub open spec fn folded_uri_ok(q: QMap, path: Seq<u8>, uri: Uri) -> bool {
 }
 pub open spec fn url_query(parts: Parts) -> Seq<u8> { if parts.uri.query is Some { parts.uri.query->Some_0 } else { Seq::<u8>::empty() } }
 
+/// what a successful from_request_parts establishes (C01, C09-C12, C15): the canonical request components are the reference functions of the
+/// request as received; without folding the request comes back unchanged; with folding the body parameters are appended to the URL
+/// parameters, the body is emptied and hashed as empty, and the URI is rebuilt from the canonical path and merged query
+pub open spec fn frp_ok(parts: Parts, body: Bytes, options: SignatureOptions, cr: CanonicalRequest, parts2: Parts, body2: Bytes) -> bool {
+    &&& canon_path(parts.uri.path, options.s3) is Some && parse_query(url_query(parts)) is Some
+    &&& cr.wf()
+    &&& cr.path_bytes() == canon_path(parts.uri.path, options.s3)->Some_0
+    &&& cr.hview() == map_of(header_pairs(parts.headers.entries))
+    &&& cr.method_bytes() == str_bytes(parts.method.name)
+    &&& if !folds(parts, options) {
+            &&& cr.qview() == map_of(parse_query(url_query(parts))->Some_0)
+            &&& cr.body_hash_bytes() == str_bytes(spec_hex(spec_sha256(body.data)))
+            &&& parts2 == parts && body2 == body
+        } else {
+            let bodyq = str_bytes(spec_decode(body_encoding(parts)->Some_0, body.data)->Some_0);
+            &&& body_encoding(parts) is Some && spec_decode(body_encoding(parts)->Some_0, body.data) is Some && parse_query(bodyq) is Some
+            &&& cr.qview() == map_of(parse_query(url_query(parts))->Some_0 + parse_query(bodyq)->Some_0)
+            &&& cr.body_hash_bytes() == str_bytes(spec_hex(spec_sha256(Seq::<u8>::empty())))
+            &&& body2.data == Seq::<u8>::empty()
+            &&& parts2.method == parts.method && parts2.headers == parts.headers && parts2.other == parts.other
+            &&& folded_uri_ok(cr.qview(), cr.path_bytes(), parts2.uri)
+        }
+}
+pub proof fn lemma_frp_wf(parts: Parts, body: Bytes, options: SignatureOptions, cr: CanonicalRequest, parts2: Parts, body2: Bytes)
+    requires frp_ok(parts, body, options, cr, parts2, body2)
+    ensures cr.wf()
+{}
 pub proof fn lemma_merge_with_empty_body(a: Map<String, Vec<String>>, b: Map<String, Vec<String>>)
     ensures b.len() == 0 ==> qmap(a) == merge_append(qmap(a), qmap(b)) && merge_append(qmap(a), QMap::empty()) == qmap(a)
 {
@@ -61,37 +88,15 @@ impl CanonicalRequest {
     ensures
         d6_ok(parts) && canon_path(parts.uri.path, options.s3) is None ==> r is Err && r->Err_0 is InvalidURIPath, //# C13 C09 name=rule_1_path_first
         d6_ok(parts) && canon_path(parts.uri.path, options.s3) is Some && parse_query(url_query(parts)) is None ==> r is Err && r->Err_0 is MalformedQueryString, //# C13 C10 name=rule_4_query_second
-        (d6_ok(parts) && canon_path(parts.uri.path, options.s3) is Some && parse_query(url_query(parts)) is Some && !folds(parts, options)) ==> r is Ok && {
-            let cr = r->Ok_0.0;
-            &&& cr.wf()
-            &&& cr.path_bytes() == canon_path(parts.uri.path, options.s3)->Some_0
-            &&& cr.qview() == map_of(parse_query(url_query(parts))->Some_0)
-            &&& cr.hview() == map_of(header_pairs(parts.headers.entries))
-            &&& cr.method_bytes() == str_bytes(parts.method.name)
-            &&& cr.body_hash_bytes() == str_bytes(spec_hex(spec_sha256(body.data)))
-            &&& r->Ok_0.1 == parts && r->Ok_0.2 == body
-        }, //# C01 C09 C10 C11 C12 C15 name=not_folding_request_canonicalised_and_passed_through_unchanged
+        (d6_ok(parts) && canon_path(parts.uri.path, options.s3) is Some && parse_query(url_query(parts)) is Some && !folds(parts, options)) ==> r is Ok, //# C02 C13 name=not_folding_well_formed_request_is_accepted_by_this_stage
         (d6_ok(parts) && canon_path(parts.uri.path, options.s3) is Some && parse_query(url_query(parts)) is Some && folds(parts, options)) ==> {
             &&& (body_encoding(parts) is None ==> r is Err && r->Err_0 is InvalidBodyEncoding)
             &&& (body_encoding(parts) is Some && spec_decode(body_encoding(parts)->Some_0, body.data) is None ==> r is Err && r->Err_0 is InvalidBodyEncoding)
             &&& (body_encoding(parts) is Some && spec_decode(body_encoding(parts)->Some_0, body.data) is Some
                     && parse_query(str_bytes(spec_decode(body_encoding(parts)->Some_0, body.data)->Some_0)) is None ==> r is Err && r->Err_0 is MalformedQueryString)
-            &&& (r is Err ==> r->Err_0 is InvalidBodyEncoding || r->Err_0 is MalformedQueryString)
-            &&& (r is Ok ==> {
-                let cr = r->Ok_0.0;
-                let bodyq = str_bytes(spec_decode(body_encoding(parts)->Some_0, body.data)->Some_0);
-                &&& body_encoding(parts) is Some && spec_decode(body_encoding(parts)->Some_0, body.data) is Some && parse_query(bodyq) is Some
-                &&& cr.wf()
-                &&& cr.path_bytes() == canon_path(parts.uri.path, options.s3)->Some_0
-                &&& cr.qview() == map_of(parse_query(url_query(parts))->Some_0 + parse_query(bodyq)->Some_0)
-                &&& cr.hview() == map_of(header_pairs(parts.headers.entries))
-                &&& cr.method_bytes() == str_bytes(parts.method.name)
-                &&& cr.body_hash_bytes() == str_bytes(spec_hex(spec_sha256(Seq::<u8>::empty())))
-                &&& r->Ok_0.2.data == Seq::<u8>::empty()
-                &&& r->Ok_0.1.method == parts.method && r->Ok_0.1.headers == parts.headers && r->Ok_0.1.other == parts.other
-                &&& folded_uri_ok(cr.qview(), cr.path_bytes(), r->Ok_0.1.uri)
-            })
-        }, //# C12 C15 C01 C13 name=folding_merges_body_parameters_after_url_parameters_and_hashes_empty_body
+        }, //# C12 C13 name=undecodable_or_malformed_form_body_is_refused
+        r is Err ==> (r->Err_0 is InvalidURIPath || r->Err_0 is MalformedQueryString || r->Err_0 is InvalidBodyEncoding), //# C13 name=stage_error_kinds
+        d6_ok(parts) && r is Ok ==> frp_ok(parts, body, options, r->Ok_0.0, r->Ok_0.1, r->Ok_0.2), //# C01 C09 C10 C11 C12 C15 name=canonical_request_is_that_of_the_request_as_received_and_request_passes_through
 //@ bodystart
     let ghost parts0 = parts;
     let ghost body0 = body;
@@ -187,3 +192,110 @@ impl CanonicalRequest {
     }
 //@ end
 }
+
+//@ item signature.rs const ALLOWED_MISMATCH_MINUTES
+//@ end
+
+/// `IntoRequestBytes` (signature.rs): `#[async_trait] async fn into_request_bytes(self) -> Result<Bytes, BoxError>`. `async fn` in a trait is outside
+/// Verus's subset: the trait is declared here with an associated future type (same call-site text `body.into_request_bytes().await`);
+/// `body_bytes` names what the conversion yields. The three impls in the crate are not verified by Verus (see DESIGN.md).
+pub trait IntoRequestBytes: Sized {
+    type Fut: Future<Output = Result<Bytes, BoxError>>;
+    spec fn body_bytes(self) -> Result<Bytes, BoxError>;
+    fn into_request_bytes(self) -> (f: Self::Fut)
+        ensures f.awaited() ==> f@ == self.body_bytes();
+}
+
+/// the 15 minute window constant as a Duration
+pub open spec fn fifteen_minutes(d: Duration) -> bool { d.ns == 15 * 60_000_000_000 }
+
+/// C01 / C15: what a successful validation means. Every stage succeeded on the request as received (cr), the authenticator `a` was built by the
+/// documented carrier rules, rules 10-13 hold for a 15 minute window `d`, the provider was called exactly once with `req` and answered Ok,
+/// the presented signature is the hex HMAC under the provider's key of the string to sign, and what is returned is the (possibly folded)
+/// request plus the provider's principal and session data.
+pub open spec fn accepted_by(parts: Parts, body: Bytes, options: SignatureOptions, always: Seq<Seq<u8>>, ifreq: Seq<Seq<u8>>, prefixes: Seq<Seq<u8>>,
+    region: &str, service: &str, now: DateTime<Utc>, calls0: Seq<GetSigningKeyRequest>, calls1: Seq<GetSigningKeyRequest>,
+    answer: Result<GetSigningKeyResponse, BoxError>, out: (Parts, Bytes, SigV4AuthenticatorResponse),
+    cr: CanonicalRequest, a: SigV4Authenticator, d: Duration, req: GetSigningKeyRequest) -> bool
+{
+    &&& frp_ok(parts, body, options, cr, out.0, out.1)
+    &&& cr.authenticator_ok(always, ifreq, prefixes, a)
+    &&& fifteen_minutes(d) && a.pre_ok(region.spec_bytes(), service.spec_bytes(), now, d)
+    &&& a.is_provider_request(region@, service@, req)
+    &&& calls1 == calls0.push(req)
+    &&& answer is Ok
+    &&& a.sig() == a.expected_sig(answer->Ok_0.s_key())
+    &&& out.2.s_principal() == answer->Ok_0.s_principal()
+    &&& out.2.s_session_data() == answer->Ok_0.s_session_data()
+}
+
+pub open spec fn accepted<G>(parts: Parts, body: Bytes, options: SignatureOptions, always: Seq<Seq<u8>>, ifreq: Seq<Seq<u8>>, prefixes: Seq<Seq<u8>>,
+    region: &str, service: &str, now: DateTime<Utc>, g0: G, calls0: Seq<GetSigningKeyRequest>, calls1: Seq<GetSigningKeyRequest>,
+    out: (Parts, Bytes, SigV4AuthenticatorResponse)) -> bool
+{
+    exists|cr: CanonicalRequest, a: SigV4Authenticator, d: Duration, req: GetSigningKeyRequest|
+        #[trigger] accepted_by(parts, body, options, always, ifreq, prefixes, region, service, now, calls0, calls1,
+            provider_answer::<G, GetSigningKeyRequest, GetSigningKeyResponse, BoxError>(g0, req), out, cr, a, d, req)
+}
+
+//@ fn signature.rs sigv4_validate_request
+//@ props C08 C01 C02 C04 C13 C14 C15
+//@ ret r
+//   (this Verus version gives no specification to the error conversion hidden in `?` when the error types differ; the three converting `?`
+//    are desugared to what they mean: `match e { Ok(v) => v, Err(e) => return Err(From::from(e)) }`)
+//@ replace 1 `CanonicalRequest::from_request_parts(parts, body, options)?;` => `match CanonicalRequest::from_request_parts(parts, body, options) { Ok(v) => v, Err(e) => return Err(BoxError::from(e)) };`
+//@ replace 1 `canonical_request.get_authenticator(required_headers)?;` => `match canonical_request.get_authenticator(required_headers) { Ok(v) => v, Err(e) => return Err(BoxError::from(e)) };`
+//@ replace 1 `        )<NL>        .await?;` => `        ).await; let sigv4_response = match sigv4_response { Ok(v) => v, Err(e) => return Err(BoxError::from(e)) };`
+//@ spec
+    requires
+        forall|i: int| 0 <= i < required_headers.always_spec().len() ==> all_ascii(#[trigger] required_headers.always_spec()[i]),
+        forall|i: int| 0 <= i < required_headers.if_in_request_spec().len() ==> all_ascii(#[trigger] required_headers.if_in_request_spec()[i]),
+        forall|i: int| 0 <= i < required_headers.prefixes_spec().len() ==> all_ascii(#[trigger] required_headers.prefixes_spec()[i]),
+        d6_ok(request.parts),
+    ensures
+        // C01 / C15: success only if every stage succeeded on the request as received, the presented signature is the HMAC under the
+        // provider's key of the string to sign, and what comes back is the (possibly folded) request and the provider's identity data
+        r is Ok ==> request.body.body_bytes() is Ok, //# C15 name=body_converted
+        r is Ok ==> accepted::<G>(request.parts, request.body.body_bytes()->Ok_0, options, required_headers.always_spec(), required_headers.if_in_request_spec(),
+            required_headers.prefixes_spec(), region, service, server_timestamp, *old(get_signing_key), old(get_signing_key).calls(), final(get_signing_key).calls(), r->Ok_0)
+        , //# C01 C02 C04 C14 C15 name=success_means_every_stage_passed_and_signature_matches
+        // C14: at most one provider call
+        final(get_signing_key).calls() == old(get_signing_key).calls()
+            || exists|req: GetSigningKeyRequest| final(get_signing_key).calls() == old(get_signing_key).calls().push(req), //# C14 name=provider_called_at_most_once
+        // C13: with an infallible body conversion every failure is a SignatureError
+        r is Err && request.body.body_bytes() is Ok ==> r->Err_0.is::<SignatureError>(), //# C13 name=every_failure_is_a_signature_error
+//@ bodystart
+    hide(frp_ok);
+    hide(CanonicalRequest::authenticator_ok);
+    hide(SigV4Authenticator::is_provider_request);
+    hide(SigV4Authenticator::expected_sig);
+    hide(scope_ok);
+    broadcast use axiom_box_sig;
+//@ before 1 `let auth = canonical_request.get_authenticator(required_headers)?;`
+    let ghost parts1 = parts;
+    let ghost body1 = body;
+    proof { lemma_frp_wf(request.parts, request.body.body_bytes()->Ok_0, options, canonical_request, parts1, body1); }
+//@ before 1 `Ok((parts, body, sigv4_response))`
+    proof {
+        assert(request.body.body_bytes() is Ok);
+        let d = Duration { ns: 900_000_000_000int };
+        assert(fifteen_minutes(d));
+        assert(auth.pre_ok(region.spec_bytes(), service.spec_bytes(), server_timestamp, d));
+        let req = choose|req: GetSigningKeyRequest| {
+            &&& auth.is_provider_request(region@, service@, req)
+            &&& final(get_signing_key).calls() == old(get_signing_key).calls().push(req)
+            &&& provider_answer::<G, GetSigningKeyRequest, GetSigningKeyResponse, BoxError>(*old(get_signing_key), req) is Ok
+            &&& auth.sig() == auth.expected_sig(provider_answer::<G, GetSigningKeyRequest, GetSigningKeyResponse, BoxError>(*old(get_signing_key), req)->Ok_0.s_key())
+            &&& sigv4_response.s_principal() == provider_answer::<G, GetSigningKeyRequest, GetSigningKeyResponse, BoxError>(*old(get_signing_key), req)->Ok_0.s_principal()
+            &&& sigv4_response.s_session_data() == provider_answer::<G, GetSigningKeyRequest, GetSigningKeyResponse, BoxError>(*old(get_signing_key), req)->Ok_0.s_session_data()
+        };
+        assert(frp_ok(request.parts, request.body.body_bytes()->Ok_0, options, canonical_request, parts, body));
+        assert(canonical_request.authenticator_ok(required_headers.always_spec(), required_headers.if_in_request_spec(), required_headers.prefixes_spec(), auth));
+        assert(auth.is_provider_request(region@, service@, req));
+        assert(accepted_by(request.parts, request.body.body_bytes()->Ok_0, options, required_headers.always_spec(), required_headers.if_in_request_spec(),
+            required_headers.prefixes_spec(), region, service, server_timestamp, old(get_signing_key).calls(), final(get_signing_key).calls(),
+            provider_answer::<G, GetSigningKeyRequest, GetSigningKeyResponse, BoxError>(*old(get_signing_key), req), (parts, body, sigv4_response), canonical_request, auth, d, req));
+        assert(accepted::<G>(request.parts, request.body.body_bytes()->Ok_0, options, required_headers.always_spec(), required_headers.if_in_request_spec(),
+            required_headers.prefixes_spec(), region, service, server_timestamp, *old(get_signing_key), old(get_signing_key).calls(), final(get_signing_key).calls(), (parts, body, sigv4_response)));
+    }
+//@ end
